@@ -27,8 +27,14 @@ static void vf_run_to_completion (int t) {
 int main (void) {
 	int r, t, j;
 	for (j = 0; j < VF_NT; j++) { vf_dirty[j] = 1; }
+#ifdef VF_HB
+	vf_hb_init ();
+#endif
 #if VF_NINIT
 	vf_run_to_completion (VF_NSCHED);
+#ifdef VF_HB
+	vf_hb_fork (VF_NSCHED);           /* set-up code happens before every thread */
+#endif
 #endif
 	for (r = 0; r < VF_R; r++) {
 		for (t = 0; t < VF_NSCHED; t++) {
@@ -60,6 +66,9 @@ int main (void) {
 		VF_ASSERT_ (alldone || any, "deadlock: every unfinished thread is blocked for ever (lost wake-up)", 9999);
 #endif
 #if VF_NFINAL
+#ifdef VF_HB
+		vf_hb_join_all (VF_NSCHED + VF_NINIT);     /* the final checks run after every thread has been joined */
+#endif
 		if (alldone) { vf_run_to_completion (VF_NSCHED + VF_NINIT); }
 #endif
 #ifdef WITNESS
